@@ -13,6 +13,7 @@ from .series_common import World, diff_series, snapshot, is_mv, val_to_float, cl
 from .C09 import _plain
 
 FREQS = "QMDIYH"
+NPROC = 14
 PYBIN = {"add": lambda a, b: a + b, "sub": lambda a, b: a - b, "mul": lambda a, b: a * b}
 
 
@@ -517,14 +518,32 @@ def run(chk):
     dump = chk.scratch.file("series.dump")
     r = tlc.must_pass(tlc.run("SeriesStep", "SeriesStep.%s.cfg" % chk.tier, chk.scratch, dump=dump, timeout=7200, heap="12g"), "SeriesStep")
     chk.add_tlc(r, "SeriesStep/" + chk.tier)
+    # the transitions are replayed by a pool of processes, each streaming the dump and taking every NPROC-th computed state
+    from .. import parallel
+    nfreq = 6 if thorough else 4
+    def worker(states, shard):
+        class Local:
+            def __init__(self):
+                self.mismatches, self.samples = [], []
+            def mismatch(self, fp, what, payload):
+                if sum(1 for m in self.mismatches if m["fingerprint"] == fp) < 3:
+                    self.mismatches.append({"fingerprint": fp, "what": what, "payload": payload})
+        loc, k = Local(), 0
+        for st in states:
+            if not st["post"]["laws"]:
+                raise MachineryError("SeriesStep: laws false in dump")
+            j = k * NPROC + shard
+            check_step(loc, st, FREQS[j % nfreq], alt=bool((j // 6) % 2))
+            if j in (777, 30001):
+                loc.samples.append({"series_step": {"a": _plain(st["ca"]), "b": _plain(st["cb"]), "op": _plain(st["op"]), "spec_post": _plain(st["post"])}})
+            k += 1
+        return k, loc.mismatches, loc.samples
     n = 0
-    for st in tlaval.parse_dump(dump, want=lambda b: "done = TRUE" in b):
-        if not st["post"]["laws"]:
-            raise MachineryError("SeriesStep: laws false in dump")
-        check_step(chk, st, FREQS[n % (6 if thorough else 4)], alt=bool((n // 6) % 2))
-        n += 1
-        if n in (777, 30001):
-            chk.sample({"series_step": {"a": _plain(st["ca"]), "b": _plain(st["cb"]), "op": _plain(st["op"]), "spec_post": _plain(st["post"])}})
+    for k, mm, ss in parallel.map_dump(dump, lambda b: "done = TRUE" in b, worker, nproc=NPROC):
+        n += k
+        chk.mismatches.extend(mm)
+        for x in ss:
+            chk.sample(x)
     os.remove(dump)
     if n * 2 != r.distinct:
         raise MachineryError("SeriesStep: %d transitions parsed, %d states reported" % (n, r.distinct))
